@@ -33,7 +33,7 @@ def call_strings(i, j):
 
 
 def parse_trace(path):
-    out = {"tid": {}, "sync": [], "real": [], "ret": [], "other": [], "raw": []}
+    out = {"tid": {}, "sync": [], "acq": [], "real": [], "ret": [], "other": [], "raw": []}
     if not os.path.exists(path):
         return out
     for line in open(path, errors="replace"):
@@ -45,6 +45,8 @@ def parse_trace(path):
             out["tid"][int(f[1])] = f[2]
         elif f[0] == "sync":
             out["sync"].append((int(f[1]), int(f[2]), f[3], f[4] if len(f) > 4 else ""))
+        elif f[0] == "acq":
+            out["acq"].append((int(f[1]), int(f[2]), f[3], f[4] if len(f) > 4 else ""))
         elif f[0] == "real":
             out["real"].append((int(f[1]), int(f[2]), f[3], f[4], f[5] if len(f) > 5 else ""))
         elif f[0] == "ret":
@@ -52,6 +54,7 @@ def parse_trace(path):
         else:
             out["other"].append(f)
     out["sync"].sort()
+    out["acq"].sort()
     return out
 
 
@@ -112,3 +115,12 @@ def calibrate(run, lib, ini_text, tag="calib"):
     if progs[0] != progs[1]:
         raise CheckError("calibration: the two calls differ: %s / %s" % (progs[0], progs[1]))
     return progs[0], len(progs[0]) + 3, calls[0]
+
+
+def observed_locks(run, lib, ini_text, tag="locks"):
+    """every lock acquisition (repository mutex 'm', any other pthread mutex 'M', rwlock 'r'/'w', flock 'f') a thread makes inside ONE
+    wrapped call - the first of the process, as in the fork runs - in the order observed: [(kind, call site)]"""
+    r = run_mt(run, lib, "trace", 1, 1, "-", ini_text, tag)
+    if r["status"] != 0:
+        raise CheckError("lock observation run failed: status %s %s" % (r["status"], r["stderr"][-500:]))
+    return [(kind, site) for (_, t, kind, site) in r["trace"]["acq"]]
